@@ -303,8 +303,19 @@ func binopC(op token.Token, a, b value, t types.Type) value {
 	panic(unsupported{fmt.Sprintf("binop %s %s %s", op, describe(a), describe(b))})
 }
 
+var fnNames = map[*ssa.Function]string{}
+
+func fnName(fn *ssa.Function) string {
+	if n, ok := fnNames[fn]; ok {
+		return n
+	}
+	n := fn.String()
+	fnNames[fn] = n
+	return n
+}
+
 func call(fn *ssa.Function, args []value, free []value) value {
-	name := fn.String()
+	name := fnName(fn)
 	if r, ok := intrinsic(name, fn, args, free); ok {
 		return r
 	}
